@@ -105,6 +105,7 @@ func (n *RawNode) newContext() context.Context {
 func (n *RawNode) close() error {
 	// important to cancel first to stop goroutines
 	n.cancel()
+	verifPoint("cls.cancelled", n.channel)
 	if n.conn == nil {
 		return nil
 	}
